@@ -26,7 +26,7 @@ ASSUMPTIONS = ["an injected connection-level errno means that connection is real
 PROBES = ["fault_in_handshake_client", "fault_in_handshake_server", "fault_on_send", "fault_on_recv", "peer_fin", "peer_rst",
           "client_vanishes_mid_handshake", "errno_EPIPE", "ssl_eof", "sibling_echo_completed"]
 BOUNDS = dict(quick=dict(payloads=4, call_index=8), thorough=dict(payloads=6, call_index=12))
-TIERS = dict(quick=dict(cases=3000, wall=45.0), thorough=dict(cases=500000, wall=420.0))
+TIERS = dict(quick=dict(cases=8000, wall=45.0), thorough=dict(cases=500000, wall=420.0))
 SIM_TIME_UNIT = "net steps"
 
 ERRNOS = netmod.CONN_ERRNOS
@@ -55,7 +55,7 @@ def run_case(tape, tier):
     sweep = tier == "thorough" and tape.flag("sweep", 1, 8)
     if sweep:
         tls, code, side, op, idx = _SWEEP[tape.draw("sweep_ix", len(_SWEEP))]
-        fault = dict(kind="errno", code=code, side=side, op=op, idx=idx)
+        fault = dict(kind="errno", code=code, side=side, op=op, idx=idx, one_shot=tape.flag("one_shot", 1, 2))
     else:
         tls = tape.flag("tls", 1, 2)
         kind = ["errno", "errno", "errno", "peer_fin", "peer_rst", "vanish_handshake", "server_closes_remoter"][tape.draw("fault_kind", 7)]
